@@ -735,4 +735,120 @@ theorem wf_new [Inhabited α] {h : Heap α} (hw : WF h) (n : Int) (v : α) : WF 
       rw [e1] at b1 b2
       exact ⟨b1, b2, i3, i4⟩
 
+/-! ### `Do`, full circles, backward moves -/
+
+theorem doLoop_links [Inhabited α] {h : Heap α} (r p : Nat) (ys : List Nat) (fuel : Nat) (acc : List α)
+    (hl : Links h (p :: ys)) (hc : nx h (lastOf p ys) = r) (hnr : r ∉ p :: ys) (hf : ys.length + 1 ≤ fuel) :
+    doLoop h r fuel p acc = acc.reverse ++ (p :: ys).map (vl h) := by
+  induction ys generalizing p fuel acc with
+  | nil =>
+    cases fuel with
+    | zero => omega
+    | succ f =>
+      have hp : p ≠ r := fun e => hnr (by simp [e])
+      simp only [doLoop, hp, if_false]
+      simp only [lastOf_nil] at hc
+      rw [hc]
+      cases f <;> simp [doLoop]
+  | cons y ys ih =>
+    cases fuel with
+    | zero => simp at hf
+    | succ f =>
+      have hp : p ≠ r := fun e => hnr (by simp [e])
+      obtain ⟨h1, _, h3⟩ := hl
+      simp only [doLoop, hp, if_false, h1]
+      rw [ih y f (vl h p :: acc) h3 (by simpa using hc) (fun hm => hnr (List.mem_cons_of_mem _ hm)) (by simp at hf ⊢; omega)]
+      simp
+
+/-- **`Do`** visits the values of the ring in listing order, starting at the receiver -/
+theorem doAll_ring [Inhabited α] {h : Heap α} {a : Nat} {xs : List Nat} (hr : IsRing h (a :: xs)) :
+    doAll h (some a) = (a :: xs).map (vl h) := by
+  obtain ⟨l, c, d, nd, b⟩ := id hr
+  show doLoop h a h.size (nx h a) [vl h a] = _
+  cases xs with
+  | nil =>
+    simp only [lastOf_nil] at c
+    rw [c]
+    cases h.size <;> simp [doLoop]
+  | cons x xs =>
+    obtain ⟨h1, _, h3⟩ := l
+    rw [h1, doLoop_links a x xs h.size [vl h a] h3 (by simpa using c) (List.nodup_cons.mp nd).1]
+    · simp
+    · have := hr.length_le; simp at this; omega
+
+theorem iter_succ' (f : Nat → Nat) (k r : Nat) : iter f (k + 1) r = f (iter f k r) := by
+  induction k generalizing r with
+  | zero => rfl
+  | succ k ih => rw [iter_succ, ih (f r)]; rfl
+
+theorem iter_add (f : Nat → Nat) (a b r : Nat) : iter f (a + b) r = iter f b (iter f a r) := by
+  induction a generalizing r with
+  | zero => simp
+  | succ a ih => rw [Nat.add_right_comm, iter_succ, ih, iter_succ]
+
+theorem IsRing.rotate_to {h : Heap α} (A B : List Nat) (hB : B ≠ []) (hr : IsRing h (A ++ B)) : IsRing h (B ++ A) := by
+  induction A generalizing B with
+  | nil => simpa using hr
+  | cons a A ih =>
+    have h1 : IsRing h (A ++ B ++ [a]) := IsRing.rotate (a := a) (xs := A ++ B) hr
+    have := ih (B ++ [a]) (by simp) (by simpa [List.append_assoc] using h1)
+    simpa [List.append_assoc] using this
+
+/-- every element can be made the head of the listing -/
+theorem IsRing.from_mem {h : Heap α} {l : List Nat} (hr : IsRing h l) {x : Nat} (hx : x ∈ l) :
+    ∃ ys, IsRing h (x :: ys) ∧ ys.length + 1 = l.length := by
+  obtain ⟨A, B, rfl⟩ := List.append_of_mem hx
+  exact ⟨B ++ A, by simpa using hr.rotate_to A (x :: B) (by simp), by simp; omega⟩
+
+/-- a full circle: `Move(Len)` is the identity (so `Move(n)` only depends on `n % Len`) -/
+theorem move_full_circle {h : Heap α} {l : List Nat} (hr : IsRing h l) {x : Nat} (hx : x ∈ l) :
+    move h x (l.length : Int) = x := by
+  obtain ⟨ys, hy, hlen⟩ := hr.from_mem hx
+  rw [move_nonneg, ← hlen, iter_succ', iter_links_last' x ys hy.1]
+  exact hy.2.1
+where
+  iter_links_last' (a : Nat) (xs : List Nat) (hl : Links h (a :: xs)) : iter (nx h) xs.length a = lastOf a xs := by
+    induction xs generalizing a with
+    | nil => rfl
+    | cons x xs ih =>
+      obtain ⟨h1, _, h3⟩ := hl
+      simp only [List.length_cons, iter_succ, h1, lastOf_cons]
+      exact ih x h3
+
+theorem iter_mem {l : List Nat} {f : Nat → Nat} (hf : ∀ y ∈ l, f y ∈ l) (k : Nat) {y : Nat} (hy : y ∈ l) : iter f k y ∈ l := by
+  induction k generalizing y with
+  | zero => exact hy
+  | succ k ih => exact ih (hf y hy)
+
+/-- `Move(-k)` undoes `Move(k)` and vice versa -/
+theorem move_neg_inverse {h : Heap α} {l : List Nat} (hr : IsRing h l) {x : Nat} (hx : x ∈ l) (k : Nat) :
+    move h (move h x (k : Int)) (-(k : Int)) = x ∧ move h (move h x (-(k : Int))) (k : Int) = x := by
+  have hnx : ∀ y ∈ l, nx h y ∈ l := fun y hy => (hr.inverse y hy).1
+  have hpv : ∀ y ∈ l, pv h y ∈ l := fun y hy => (hr.inverse y hy).2.1
+  have key1 : ∀ k y, y ∈ l → iter (pv h) k (iter (nx h) k y) = y := by
+    intro k
+    induction k with
+    | zero => exact fun y _ => rfl
+    | succ k ih =>
+      intro y hy
+      rw [iter_succ', iter_succ, ih (nx h y) (hnx y hy)]
+      exact (hr.inverse y hy).2.2.1
+  have key2 : ∀ k y, y ∈ l → iter (nx h) k (iter (pv h) k y) = y := by
+    intro k
+    induction k with
+    | zero => exact fun y _ => rfl
+    | succ k ih =>
+      intro y hy
+      rw [iter_succ', iter_succ, ih (pv h y) (hpv y hy)]
+      exact (hr.inverse y hy).2.2.2
+  cases k with
+  | zero => simp [move]
+  | succ k =>
+    have hneg : (-((k + 1 : Nat) : Int)) < 0 := by omega
+    have hpos : ¬ (((k + 1 : Nat) : Int) < 0) := by omega
+    have htn : (- -((k + 1 : Nat) : Int)).toNat = k + 1 := by omega
+    have htp : (((k + 1 : Nat) : Int)).toNat = k + 1 := by omega
+    simp only [move, hneg, hpos, if_true, if_false, htn, htp]
+    exact ⟨key1 (k + 1) x hx, key2 (k + 1) x hx⟩
+
 end Kit.Ring
